@@ -512,3 +512,45 @@ def _umap_ok(db, first, result):
 
 
 sc.ens("each-request-gets-the-map-of-its-own-writing-mode-file-read-once", _umap_ok)
+
+
+# -- W2 (vertical metrics): 'c [w1y vx vy ...]' gives consecutive CIDs their triples, 'c_first c_last w1y vx vy' the CLOSED range ---------------------
+class _W2Seq(T.Sort):
+    SHAPES = ["range-10-12", "range-5-5", "range-7-6", "list-20", "range-then-list", "leftover"]
+    def fresh(self, ctx, name):
+        R = lambda n: ctx.fresh_real("%s.%s" % (name, n))
+        shape = ctx.choose(self.SHAPES, "w2-shape")
+        t = lambda k: (R("w%d" % k), R("vx%d" % k), R("vy%d" % k))
+        a, b, c_ = t(0), t(1), t(2)
+        if shape.startswith("range-") and shape != "range-then-list":
+            lo, hi = map(int, shape.split("-")[1:])
+            seq, want = [lo, hi, a[0], a[1], a[2]], {k: a for k in range(lo, hi + 1)}
+        elif shape == "list-20":
+            seq, want = [20, [a[0], a[1], a[2], b[0], b[1], b[2]]], {20: a, 21: b}
+        elif shape == "range-then-list":
+            seq, want = [3, 4, a[0], a[1], a[2], 4, [b[0], b[1], b[2]], 9, [c_[0], c_[1], c_[2]]], {3: a, 4: b, 9: c_}
+        else:
+            seq, want = [1, 2, a[0]], {}
+        W2WANT[id(seq)] = want
+        return seq
+    def sample(self, rng):
+        return None
+    def from_model(self, ev, v):
+        return "w2"
+
+
+W2WANT = {}
+c = contract("pdfminer.pdffont:get_widths2", props=["C07"])
+c.param("seq", _W2Seq())
+c.skip_cross = True
+c.returns(T.Opaque("dict"))
+
+
+def _w2_ok(seq, result):
+    want = W2WANT[id(seq)]
+    if not isinstance(result, dict) or sorted(result) != sorted(want):
+        return False
+    return And(*[And(eq(result[k][0], want[k][0]), eq(result[k][1][0], want[k][1]), eq(result[k][1][1], want[k][2])) for k in want])
+
+
+c.ens("closed-ranges-and-lists-of-triples", _w2_ok)
